@@ -778,7 +778,160 @@ def check_c17(pid, tier, replay=None):
                       "every round a fresh process: barrier-released first calls into random approved entry points, then later calls with and without the fault")
 
 
-CHECKS = {"C17": check_c17, "C01": check_hash, "C06": check_hash, "C11": check_hash, "C15": check_c15, "C12": check_c12, "C09": check_c09, "C20": check_c20, "C08": check_c08, "C14": check_c14, "C05": check_mh, "C10": check_mh,
+WRAP_PROPS = {
+    "C13": dict(module="IsalVerif.GenProps.WrappersC13", prefixes=("C13-", "CORR-FIPS", "CORR-TABLE"),
+                variants=[("stub", "fips"), ("real", "fips")],
+                thms=["IsalVerif.Props.C13.approved_fail_closed", "IsalVerif.Props.C13.approved_tests_first",
+                      "IsalVerif.Props.C13.nonApproved_refused", "IsalVerif.Props.C13.xts_same_key_refused",
+                      "IsalVerif.Props.C13.joined_covers",
+                      "IsalVerif.GenProps.Wrappers.error_codes_ok", "IsalVerif.GenProps.Wrappers.shape_fips_ok",
+                      "IsalVerif.GenProps.Wrappers.opaque_fips_ok", "IsalVerif.GenProps.Wrappers.coverage",
+                      "IsalVerif.GenProps.Wrappers.nonapproved_ok", "IsalVerif.GenProps.Wrappers.gate_ok",
+                      "IsalVerif.GenProps.Wrappers.xts_ok", "IsalVerif.GenProps.Wrappers.C13_current"],
+                report=("failingGate", "failingNonApproved", "failingXts", "shapeMismatchFips", "failingOpaqueFips")),
+    "C16": dict(module="IsalVerif.GenProps.WrappersC16", prefixes=("C16-", "CORR-DEFAULT", "CORR-TABLE"),
+                variants=[("stub", "default"), ("stub", "fips"), ("real", "default")],
+                thms=["IsalVerif.Props.C16.reject", "IsalVerif.Props.C16.accept", "IsalVerif.Props.C16.pointers_tested_before_use",
+                      "IsalVerif.Props.C16.ctx_errors_reported", "IsalVerif.Props.C16.legacy_same_call",
+                      "IsalVerif.GenProps.Wrappers.error_codes_ok", "IsalVerif.GenProps.Wrappers.shape_default_ok",
+                      "IsalVerif.GenProps.Wrappers.opaque_default_ok", "IsalVerif.GenProps.Wrappers.coverage",
+                      "IsalVerif.GenProps.Wrappers.guards_ok", "IsalVerif.GenProps.Wrappers.guards_fips_ok",
+                      "IsalVerif.GenProps.Wrappers.ctxmap_ok", "IsalVerif.GenProps.Wrappers.ctxmap_fips_ok",
+                      "IsalVerif.GenProps.Wrappers.domain_ok", "IsalVerif.GenProps.Wrappers.domain_fips_ok",
+                      "IsalVerif.GenProps.Wrappers.legacy_ok", "IsalVerif.GenProps.Wrappers.pairing_ok",
+                      "IsalVerif.GenProps.Wrappers.C16_current"],
+                report=("failingGuards", "failingGuardsFips", "failingDomain", "failingDomainFips", "failingCtxMap",
+                        "failingCtxMapFips", "failingLegacy", "failingPairing", "shapeMismatchDefault", "failingOpaqueDefault")),
+}
+
+
+def wrap_generate():
+    """translate the API wrappers of the tree that was built (T-route); returns (default build, fips build, gen dir)"""
+    import subprocess, build_repo
+    bd, bf = build_repo.get_build("default"), build_repo.get_build("fips")
+    gen = os.path.join(bd, "wrapgen")
+    r = subprocess.run(["python3", os.path.join(vlib.VERIF, "tools", "gen_wrappers.py"), "--repo", os.path.join(bd, "src"),
+                        "--out", vlib.LEAN, "--harness", gen, "--quiet"], capture_output=True, text=True)
+    if r.returncode:
+        raise RuntimeError("gen_wrappers failed: " + (r.stderr or r.stdout)[-1500:])
+    return bd, bf, gen
+
+
+def wrap_harness(mode, build, bdir, gen):
+    """compile harness/drv_api.c in one of its four variants against the given build"""
+    import subprocess, hashlib
+    h = hashlib.sha256(open(os.path.join(vlib.HARNESS, "drv_api.c"), "rb").read() + open(os.path.join(gen, "gen_api.h"), "rb").read())
+    out = os.path.join(bdir, "drv_api_%s_%s.%s" % (mode, build, h.hexdigest()[:12]))
+    if os.path.exists(out):
+        return out
+    cmd = ["gcc", "-O1", "-g", "-Wno-deprecated-declarations", "-Wno-unused-function", "-I", os.path.join(bdir, "src", "include"),
+           "-I", gen, "-I", vlib.HARNESS, os.path.join(vlib.HARNESS, "drv_api.c"), "-o", out + ".tmp%d" % os.getpid()]
+    if mode == "stub":
+        cmd.append("-DWRAP_STUBS")
+        cmd += ["-Wl,--wrap=" + l.strip() for l in open(os.path.join(gen, "gen_wrap_syms.txt")) if l.strip()]
+        if build == "fips":
+            cmd += ["-Wl,--wrap=_aes_self_tests", "-Wl,--wrap=_sha_self_tests"]
+    if build == "fips":
+        cmd.append("-DFIPS_BUILD")
+    cmd.append(os.path.join(bdir, "isa-l_crypto.a"))
+    r = subprocess.run(cmd, capture_output=True, text=True)
+    if r.returncode:
+        raise RuntimeError("drv_api compile failed: " + r.stderr[-2000:])
+    os.replace(cmd[cmd.index("-o") + 1], out)
+    return out
+
+
+def check_wrap(pid, tier, replay=None):
+    """C13 / C16: translated wrappers + verified checkers (Lean) + enumeration harness"""
+    import subprocess
+    from concurrent.futures import ThreadPoolExecutor
+    W = WRAP_PROPS[pid]
+    chk = vlib.Check(pid, tier)
+    bd, bf, gen = wrap_generate()
+    lean_failed = vlib.lean_obligations(chk, W["module"], W["thms"], extra_targets=["wrap_model"])
+    model = os.path.join(vlib.LEAN, ".lake", "build", "bin", "wrap_model")
+    if not os.path.exists(model):
+        ok, out = vlib.lake_build(["wrap_model"])
+    witnesses = {}
+    if os.path.exists(model):
+        rep = subprocess.run([model, "report"], capture_output=True, text=True).stdout
+        for l in rep.split("\n"):
+            m = re.match(r"^(ok  |FAIL) (\w+) = (.*)$", l)
+            if m and m.group(2) in W["report"]:
+                chk.oblige("table:%s = []" % m.group(2), m.group(1) != "FAIL", m.group(3)[:300])
+                if m.group(1) == "FAIL":
+                    witnesses[m.group(2)] = m.group(3)
+    unw = [l.strip() for l in open(os.path.join(gen, "gen_unwrapped_syms.txt")) if l.strip()]
+
+    def run(v):
+        mode, build = v
+        drv = wrap_harness(mode, build, bd if build == "default" else bf, gen)
+        args = [drv] + (["--thorough"] if tier == "thorough" and mode == "stub" else [])
+        if mode == "stub":
+            p1 = subprocess.Popen(args, stdout=subprocess.PIPE)
+            p2 = subprocess.run([model, "check"] + unw, stdin=p1.stdout, capture_output=True, text=True)
+            p1.wait()
+            return v, p1.returncode, p2.stdout
+        r = subprocess.run(args, capture_output=True, text=True)
+        return v, r.returncode, r.stdout
+
+    with ThreadPoolExecutor(max_workers=3) as ex:
+        res = list(ex.map(run, W["variants"]))
+    ncalls, found = 0, []
+    for (mode, build), rc, out in res:
+        lines = [l for l in out.split("\n") if l]
+        mons = [l for l in lines if l.startswith("MONITOR") and any(l.split()[1].startswith(p) for p in W["prefixes"])]
+        summ = [l for l in lines if l.startswith("SUMMARY")]
+        n = 0
+        for l in summ:
+            m = re.search(r"(?:lines|checks)=(\d+)", l)
+            if m:
+                n += int(m.group(1))
+        ncalls += n
+        ok = not mons and rc == 0 and bool(summ)
+        chk.oblige("enumeration harness drv_api %s/%s" % (mode, build), ok, "exit=%d calls=%d monitors=%d" % (rc, n, len(mons)))
+        if rc != 0 or not summ:
+            mons = mons or ["MONITOR %s-HARNESS drv_api %s/%s exit=%d without summary" % (pid, mode, build, rc)]
+        seen = set()
+        for l in mons:
+            t = l.split()
+            key = (t[1], t[2] if len(t) > 2 else "")
+            if key in seen:
+                continue
+            seen.add(key)
+            found.append(key)
+            chk.violation("%s %s (%s/%s)" % (key[0], key[1], mode, build),
+                          {"kind": "input", "variant": [mode, build], "monitor": l[:600], "entry": key[1],
+                           "broken_obligations": [f[0] for f in lean_failed], "table_witnesses": witnesses,
+                           "note": "drv_api %s mode on the %s build: the line names the entry point, the NULL mask / scalar values / "
+                                   "self-test status of the failing call" % (mode, build)},
+                          match={"monitor": key[0], "entry": key[1]})
+        if summ and len(chk.samples) < 6:
+            chk.samples.append({"variant": "%s/%s" % (mode, build), "summary": summ[0][:200]})
+    if replay:
+        rp = json.load(open(replay))
+        hit = [k for k in found if k[0] == rp.get("monitor", "").split()[1] and k[1] == rp.get("entry")] if rp.get("monitor") else found
+        print("replay: %s" % (hit[:3],))
+        return 1 if hit else 0
+    if lean_failed and not found:
+        for name, detail in lean_failed:
+            chk.violation("Lean obligation no longer checks: %s" % name,
+                          {"kind": "obligation", "obligation": name, "detail": detail, "table_witnesses": witnesses}, no_input=True)
+    chk.cov["evaluations"] = ncalls
+    chk.cov["distinct_nontrivial"] = ncalls
+    chk.cov["entry_points"] = json.load(open(os.path.join(gen, "gen_summary.json")))
+    chk.trusted = ["Lean 4.33.0 kernel; axioms allowed: propext, Classical.choice, Quot.sound",
+                   "translator tools/gen_wrappers.py: clang-14 JSON AST of the 13 wrapper files -> statement language of Impl/Wrapper.lean "
+                   "(casts dropped, constants folded; anything else becomes `opaque` and fails opaque_*_ok)",
+                   "Spec/ApiDomain.lean: hand-written documented domain of the 72 entry points (cross-checked against the prototypes by shapeMismatch and against the binary by the harness)",
+                   "the internal callees are abstract (CalleeOk / reported context error); isal_self_tests is the gate of C17"]
+    chk.assumptions = ["SAFE_PARAM build (the default)", "callees honour their own contracts (C01-C12)"]
+    return chk.finish(level="proof", rule="stub mode: every entry point x every subset of NULL pointers (others aimed at PROT_NONE pages) x boundary scalars "
+                      "[x self-test status x key-prefix length in the FIPS build], each call compared with `run` of the translated wrapper and the documented domain; "
+                      "real mode: legacy/isal_ pairs on random valid inputs, failed-self-test refusals with memory compare, XTS same-key refusals")
+
+
+CHECKS = {"C13": check_wrap, "C16": check_wrap, "C17": check_c17, "C01": check_hash, "C06": check_hash, "C11": check_hash, "C15": check_c15, "C12": check_c12, "C09": check_c09, "C20": check_c20, "C08": check_c08, "C14": check_c14, "C05": check_mh, "C10": check_mh,
           "C02": check_aes, "C03": check_aes, "C04": check_aes, "C07": check_aes}
 
 
